@@ -70,7 +70,7 @@ def sync_part(st, ctx, out):
     cfg.fn_flavours = ("def",)
     cfg.max_susp = 0
     g = Gen(ch, cfg, "")
-    sel = ch.draw(12)
+    sel = ch.draw(13)
     obs = []  # (what, suspended?)
     what = None
     if sel < 5:
@@ -181,6 +181,25 @@ def sync_part(st, ctx, out):
             return await L.apply(lambda a, b=0: a + b, L.sync(lambda: 1)(), b=L.sync(lambda: 2)())
 
         obs.append(("asynctools block", drive_sync(block())[0]))
+    elif sel == 12:
+        what = "file-like objects"
+        import io
+
+        text = "".join("line %d\n" % i for i in range(ch.between(0, 5)))
+
+        async def block():
+            got = await L.list(io.StringIO(text))
+            got += [x async for x in L.map(len, io.BytesIO(text.encode()))]
+            got += await L.list(L.zip(io.StringIO(text), L.enumerate(io.StringIO(text))))
+            return got
+
+        susp, val, err = drive_sync(block())
+        obs.append(("file-like block", susp))
+        want = list(io.StringIO(text)) + [len(x) for x in io.BytesIO(text.encode())] + \
+            list(zip(io.StringIO(text), enumerate(io.StringIO(text))))
+        if not susp and (err is not None or val != want):
+            out.violate("C17.fails_when_driven_without_a_loop", ("file-like", type(err).__name__),
+                        {"operation": what, "async_error": repr(err), "got": repr(val), "expected": repr(want)})
     else:
         what = "tee+groupby"
         items = g.items()
